@@ -183,6 +183,13 @@ impl Stats {
     }
 
     /// Same, for enumerated spaces whose cases are distinct by construction (no hash kept).
+    /// An oracle that judges a whole block of inputs in one call reports how many it judged.
+    pub fn add_evaluations(&mut self, n: u64) {
+        if self.counting {
+            self.evals += n.saturating_sub(1);
+        }
+    }
+
     pub fn nontrivial_enumerated(&mut self, sample: impl FnOnce() -> Value) {
         if !self.counting {
             return;
@@ -591,7 +598,8 @@ where
         }
         let t0 = Instant::now();
         let total = (self.total)(ctx.tier);
-        const CHUNK: u64 = 4096;
+        // small spaces of heavy cases (blocks) must still spread over all workers
+        let chunk: u64 = (total / (WORKERS as u64 * 8)).clamp(1, 4096);
         let next = AtomicU64::new(0);
         let first_fail = AtomicU64::new(u64::MAX);
         let results: Mutex<Vec<(Stats, Option<(u64, Failure)>)>> = Mutex::new(Vec::new());
@@ -606,12 +614,12 @@ where
                     let mut st = Stats::new(str_hash(&this.name), open);
                     let mut fail: Option<(u64, Failure)> = None;
                     'outer: loop {
-                        let lo = next.fetch_add(CHUNK, Ordering::Relaxed);
+                        let lo = next.fetch_add(chunk, Ordering::Relaxed);
                         if lo >= total || lo > first_fail.load(Ordering::Relaxed) {
                             break;
                         }
                         tick();
-                        for i in lo..(lo + CHUNK).min(total) {
+                        for i in lo..(lo + chunk).min(total) {
                             let Some(case) = (this.make)(tier, i) else { continue };
                             st.evals += 1;
                             if let Err(m) = run_oracle(this.oracle, &case, &mut st) {
@@ -817,7 +825,13 @@ impl Ctx {
         );
         if let (Some(f), Some(p)) = (&self.failure, &replay_path) {
             println!("FAILURE section={} message={}", f.section, f.message);
-            println!("FAILURE case={}", f.case);
+            let shown = f.case.to_string();
+            if shown.len() > 4_000 {
+                let cut = (0..=4_000).rev().find(|i| shown.is_char_boundary(*i)).unwrap_or(0);
+                println!("FAILURE case={} ... [{} bytes, complete in the replay file]", &shown[..cut], shown.len());
+            } else {
+                println!("FAILURE case={shown}");
+            }
             println!("VIOLATION property={} replay={}", self.prop, p.display());
             return 1;
         }
